@@ -147,14 +147,19 @@ def stmt_src(s) -> str:
         return f"if ({src(s[1])}) {t} else {{ " + " ".join(stmt_src(x) for x in s[3]) + " }"
     if k == "for":
         cond = f"{s[1]} < {src(s[2])}"
-        if len(s) > 4:
+        if len(s) > 4 and s[4]:
             if s[4][0] == "andcmp":
                 cond = f"({cond}) && {src(s[4][1])}"
             elif s[4][0] == "intand":
                 cond = f"{src(s[4][1])} && {src(s[4][2])}"
             elif s[4][0] == "not":
                 cond = f"!({s[1]} >= {src(s[2])})"
-        return f"for ({s[1]} = 0; {cond}; {s[1]}++) {{ " + " ".join(stmt_src(x) for x in s[3]) + " }"
+        step = f"{s[1]}++"
+        if len(s) > 5 and s[5]:
+            step = f"{s[1]} += {s[5]}" if s[5] % 2 else f"{s[1]} = {s[1]} + {s[5]}"
+        return f"for ({s[1]} = 0; {cond}; {step}) {{ " + " ".join(stmt_src(x) for x in s[3]) + " }"
+    if k == "chain":
+        return f"{src(s[1])} = {src(s[2])} {s[3]} {src(s[4])};"
     if k == "jump":
         return f"JUMP({src(s[1])});"
     if k == "raw":
@@ -267,10 +272,10 @@ def expr_features(e, out: set, ctx="value"):
             if x[0] == "stmtexpr" and _has_hybrid(x[4]):
                 out.add("hybrid_in_ternary_arm")
         ta, tb = ctype(a), ctype(b)
+        if ta[1] < 32 and tb[1] < 32:
+            out.add("ternary_unpromoted")     # C promotes the result to int; the code keeps the narrow type
         if ta != tb:
             ct = common(ta, tb)
-            if ta[1] < 32 and tb[1] < 32:
-                out.add("ternary_unpromoted")
             for t in (ta, tb):
                 if _conv_risky(t, ct):
                     out.add("signed_widen_to_unsigned")
@@ -344,6 +349,12 @@ def stmt_features(s, out: set):
                 pass
         if op not in ("%=", "<<=", ">>=") and _conv_risky(ctype(e), lt):
             out.add("signed_widen_to_unsigned")
+    elif k == "chain":
+        stmt_features(("assign", s[2], s[3], s[4]), out)
+        if _conv_risky(ctype(s[2]), ctype(s[1])):
+            out.add("signed_widen_to_unsigned")
+        if s[3] != "=" and ctype(s[2])[1] < 32:
+            out.add("narrow_compound")
     elif k == "store":
         if s[2] is not None:
             expr_features(s[2], out)
@@ -368,7 +379,7 @@ def stmt_features(s, out: set):
         expr_features(s[2], out)
         if _has_hybrid(s[2]):
             out.add("call_in_loop_cond")
-        if len(s) > 4:
+        if len(s) > 4 and s[4]:
             if s[4][0] == "andcmp":
                 expr_features(s[4][1], out, "cond")
             elif s[4][0] == "intand":
@@ -408,6 +419,14 @@ def _regs(x, reads: set, writes: set):
             if x[2] != "=":
                 reads.add(lhs[1])
         _regs(x[3], reads, writes)
+        return
+    if x[0] == "chain":
+        for lhs in (x[1], x[2]):
+            if lhs[0] == "reg":
+                writes.add(lhs[1])
+        if x[2][0] == "reg":
+            reads.add(x[2][1])
+        _regs(x[4], reads, writes)
         return
     if x[0] == "reg":
         reads.add(x[1])
@@ -454,6 +473,7 @@ class Cfg:
         self.alt_spelling = 0.15
         self.boolish_values = 0.15   # comparison/logical results in value positions
         self.explicit_regs = 0.07    # explicit / alias registers among the leaves and destinations
+        self.chains = 0.12           # chained assignments a = b op= e
         self.__dict__.update(kw)
 
 
@@ -680,6 +700,9 @@ class Gen:
                 bound = ("bin", "&", ("reg", r.choice(["RsV", "RtV"]), (True, 32)), self.small_lit([7]))
             else:
                 bound = self.small_lit([0, 1, 2, 3, 4, 8])
+            if r.random() < 0.25:
+                self.stats["for_step_assign"] += 1
+                return ("for", v, bound, body, None, r.choice([1, 2, 3]))
             y = r.random()
             if y < 0.15:
                 self.stats["for_cond_and_cmp"] += 1
@@ -733,6 +756,18 @@ class Gen:
                 if op in ("<<=", ">>="):
                     e = self.small_lit([0, 1, 4, 8, 31])
             return ("assign", ("reg", n, t), op, e)
+        if len(self.locals) >= 1 and r.random() < self.c.chains:
+            n2 = r.choice(sorted(self.locals))
+            l2 = ("var", n2, self.locals[n2])
+            if r.random() < 0.5:
+                rn, rt = r.choice(DEST_REGS)
+                l1 = ("reg", rn, rt)
+            else:
+                n1 = r.choice(sorted(self.locals))
+                l1 = ("var", n1, self.locals[n1])
+            if l1[1] != l2[1]:
+                self.stats["chained_assign"] += 1
+                return ("chain", l1, l2, r.choice(["=", "=", "+=", "-=", "|="]), self.expr(2))
         n = r.choice(sorted(self.locals))
         op, e = "=", self.expr()
         if r.random() < self.c.compound_assign:
